@@ -72,6 +72,8 @@ type apiEnv struct {
 	chk     *check.Handler
 	oplFile string
 	curOPL  string
+	// the name of the permission Doc#view in this environment's document ("" = view)
+	viewPerm string
 	nOPL    int
 	// requests carry the environment's context (the tenant of a multi-tenant registry)
 	withReqCtx bool
